@@ -31,8 +31,9 @@ var propImports = map[string][][]string{
 	"C05": {{"C01", "REARM"}},
 	"C06": {{"C10", "BEFORE-COMMANDS"}},
 	"C07": {{"C09", "ERR-recovery"}, {"C02", "SPLIT"}, {"C08", "SCOPE"}, {"C19", "NOFLAG"}},
-	"C09": {{"C06", "WALK", "SELECT", "POSITIONAL"}},
-	"C10": {{"C03", "TERMINATOR", "PASSAFTER"}},
+	"C08": {{"C02", "RUNES"}, {"C19", "MODEL"}},
+	"C09": {{"C06", "WALK", "SELECT", "POSITIONAL", "GATE"}, {"C19", "MODEL"}},
+	"C10": {{"C03", "TERMINATOR", "PASSAFTER"}, {"C02", "CLUSTER"}},
 	"C12": {{"C13", "FUNNEL"}, {"C11", "TAG"}},
 	"C16": {{"C17", "UNIT"}},
 	"C17": {{"C16", "ATTR", "MASK"}},
